@@ -446,7 +446,18 @@ pub fn oracle_c06(line: &str) -> String {
                     for e in &s.elems {
                         if let GdsElement::GdsTextElem(t) = e {
                             let loc = raw::Point::new(t.xy.x as isize, t.xy.y as isize);
-                            let hits: Vec<&raw::Element> = ly.elems.iter().filter(|el| layers.get(el.layer).map(|l| l.layernum) == Some(t.layer) && el.inner.contains(&loc)).collect();
+                            // membership is decided by the exact reference predicates of C13, not by the code's own `contains`
+                            let q = (t.xy.x as i64, t.xy.y as i64);
+                            let inside = |sh: &raw::Shape| -> Option<bool> {
+                                match sh {
+                                    raw::Shape::Rect(r) => Some(r.p0.x.min(r.p1.x) as i64 <= q.0 && q.0 <= r.p0.x.max(r.p1.x) as i64 && r.p0.y.min(r.p1.y) as i64 <= q.1 && q.1 <= r.p0.y.max(r.p1.y) as i64),
+                                    raw::Shape::Polygon(pl) => { let v: Vec<(i64, i64)> = pl.points.iter().map(|p| (p.x as i64, p.y as i64)).collect(); if crate::props::c13::is_simple(&v) { Some(crate::props::c13::ref_poly(&v, q)) } else { None } }
+                                    raw::Shape::Path(pa) => { let v: Vec<(i64, i64)> = pa.points.iter().map(|p| (p.x as i64, p.y as i64)).collect(); if crate::props::c13::manhattan(&v) { crate::props::c13::ref_path(pa.width as i64, &v, q) } else { None } }
+                                }
+                            };
+                            let same_layer: Vec<&raw::Element> = ly.elems.iter().filter(|el| layers.get(el.layer).map(|l| l.layernum) == Some(t.layer)).collect();
+                            if same_layer.iter().any(|el| inside(&el.inner).is_none()) { continue; } // a path cap/corner or a non-simple polygon: unspecified
+                            let hits: Vec<&raw::Element> = same_layer.into_iter().filter(|el| inside(&el.inner) == Some(true)).collect();
                             let is_annot = ly.annotations.iter().any(|a| a.string == t.string && a.loc == loc);
                             if hits.is_empty() {
                                 if !is_annot { return format!("fail label {:?} outside every shape was dropped", t.string); }
@@ -546,7 +557,7 @@ fn gen_strans(rng: &mut Rng) -> Option<GdsStrans> {
     match rng.below(10) {
         0 => None,
         1 => Some(GdsStrans { abs_angle: true, ..Default::default() }),
-        _ => Some(GdsStrans { reflected: rng.coin(), angle: if rng.chance(1, 5) { None } else { Some(90.0 * rng.range(0, 3) as f64) }, mag: None, ..Default::default() }),
+        _ => Some(GdsStrans { reflected: rng.coin(), angle: if rng.chance(1, 5) { None } else if rng.chance(1, 3) { Some(90.0 * (rng.below(14) as i64 - 6) as f64) /* negative right angles and whole turns: -540 … 630 */ } else { Some(90.0 * rng.range(0, 3) as f64) }, mag: None, ..Default::default() }),
     }
 }
 pub fn gen_gds_lib(rng: &mut Rng, malform: u64, big: bool) -> GdsLibrary {
@@ -596,6 +607,28 @@ pub fn gen_gds_lib(rng: &mut Rng, malform: u64, big: bool) -> GdsLibrary {
                     q.push(q[0]);
                     s.elems.push(GdsElement::GdsBoundary(GdsBoundary { layer, datatype: dt, xy: q.iter().map(|p| GdsPoint::new(p.0 + ox, p.1 + oy)).collect(), ..Default::default() }));
                     label_at = Some((ox + w / 2, oy + h / 2));
+                }
+                2 if rng.coin() => {
+                    // L / staircase shapes, any start vertex and direction; the label anywhere on the grid of the bounding box and
+                    // one step around it: inside, on an edge, on a vertex, in the notch, and on the continuation of an edge
+                    let (w, h) = (rng.range(6, 14) as i32, rng.range(6, 14) as i32);
+                    let (dx, dy) = (rng.range(1, w as i64 - 1) as i32, rng.range(1, h as i64 - 1) as i32);
+                    let mut q = match rng.below(3) {
+                        0 => vec![(0, 0), (w, 0), (w, dy), (dx, dy), (dx, h), (0, h)],
+                        1 => vec![(0, 0), (w, 0), (w, h), (dx, h), (dx, dy), (0, dy)],
+                        _ => vec![(0, 0), (w, 0), (w, dy), (dx + 1, dy), (dx + 1, h), (dx, h), (dx, dy), (0, dy)],
+                    };
+                    if rng.coin() { q.reverse(); }
+                    let nq = q.len();
+                    q.rotate_left(rng.below(nq as u64) as usize);
+                    q.push(q[0]);
+                    s.elems.push(GdsElement::GdsBoundary(GdsBoundary { layer, datatype: dt, xy: q.iter().map(|p| GdsPoint::new(p.0 + ox, p.1 + oy)).collect(), ..Default::default() }));
+                    label_at = Some(match rng.below(4) {
+                        0 => (ox + w, oy + rng.range(-1, h as i64 + 1) as i32),
+                        1 => (ox + dx, oy + rng.range(-1, h as i64 + 1) as i32),
+                        2 => (ox + rng.range(-1, w as i64 + 1) as i32, oy + dy),
+                        _ => (ox + rng.range(-1, w as i64 + 1) as i32, oy + rng.range(-1, h as i64 + 1) as i32),
+                    });
                 }
                 2 => { let a = rng.range(6, 16) as i32; let w = 2; let pts = vec![(0, 0), (0, a), (w, a), (w, w), (a - w, w), (a - w, a), (a, a), (a, 0), (0, 0)];
                     s.elems.push(GdsElement::GdsBoundary(GdsBoundary { layer, datatype: dt, xy: pts.iter().map(|p| GdsPoint::new(p.0 + ox, p.1 + oy)).collect(), ..Default::default() }));
